@@ -135,6 +135,7 @@ def boundary_sources():
         out.append((f"gen/castarg_{n}", f"fn f() {{\n    let v = reg_{a}(\"first line\nsecond line\", value as &(dyn SomeLongTraitNameNumberOne + SomeLongTraitNameNumberTwo + Send + Sync));\n}}\n"))
         out.append((f"gen/tyargs_{n}", f"fn f() {{\n    let v: Map<Key{a}, &(dyn SomeLongTraitNameNumberOne + SomeLongTraitNameNumberTwo + Send)> = make::<Key{a}, (u32, &(dyn Other + Sync))>(1, 2);\n}}\n"))
         out.append((f"gen/mlstrarg_{n}", f"fn f() {{\n    foo(\"line one\n    line two\", {a}, second_argument, |x| x + 1);\n}}\n"))
+        out.append((f"gen/floatlit_{n}", f"fn f() {{\n    let v{a} = 4.00.sqrt() + 16.0_0.max(1.) + 2.0.min(3.);\n    let r = ((1.50)..(2.5), 1.0_.powi(2), 7.50.abs(), 1e3.abs(), 0x1F_u32, 0xAb, 1_000.5_f64, 2E-3);\n}}\n"))
         out.append((f"gen/quals_{n}", f"pub(crate) const unsafe extern \"C\" fn {a}<'a, T>(x: &'a mut T) -> impl Iterator<Item = &'a T> + 'a {{}}\npub async unsafe fn g{a}(self: Pin<&mut Self>) {{}}\n"))
     return out
 
@@ -194,6 +195,18 @@ def name_sources():
             out.append((f"gen/name_mac_{m}_{n}",
                         f"fn f() {{\n    {m}!(\"text {{}} {{}} {{}}\", {a}, bbbbbbbb, cccccccc, dddddddd);\n"
                         f"    {m}!({a}, bbbbbbbb, \"text {{}} {{}}\", cccccccc, dddddddd);\n}}\n"))
+    # identifier shapes in import lists and across adjacent imports (sorting looks at the case of
+    # the first letter, at underscores, at digit runs, at raw identifiers)
+    shapes = ["snake", "Camel", "UPPER", "_snake", "_Camel", "_UPPER", "_1", "r#type", "x9", "x10",
+              "X_1", "__d", "Zz", "zZ", "A1", "a01"]
+    for k in range(len(shapes)):
+        rot = shapes[k:] + shapes[:k]
+        out.append((f"gen/name_uselist_{k}", "use ffi::{" + ", ".join(rot) + "};\n"))
+        out.append((f"gen/name_useitems_{k}", "".join(f"use ffi::{x};\n" for x in rot[:8])))
+        out.append((f"gen/name_usealias_{k}",
+                    "".join(f"use {x} as q{i};\nuse {x};\nuse {x}::sub;\n"
+                            for i, x in enumerate([y.replace("r#type", "r#snake") for y in rot[:4]]
+                                                  + ["snake"]))))
     for t in ATTR_NAMES:
         for n in (1, 25, 49):
             a = "a" * n
@@ -236,7 +249,7 @@ OPTION_SWEEP = [
 ]
 # options whose purpose is to change tokens (C01 judges them with its own rules / not at all)
 TOKEN_CHANGING = {"use_try_shorthand", "condense_wildcard_suffixes", "merge_derives",
-                  "normalize_doc_attributes", "hex_literal_case", "float_literal_trailing_zero",
+                  "normalize_doc_attributes",
                   "force_explicit_abi", "use_field_init_shorthand", "imports_granularity",
                   "normalize_comments", "wrap_comments", "format_strings", "reorder_impl_items",
                   "format_code_in_doc_comments"}
